@@ -7,10 +7,13 @@ import (
 	"fmt"
 	"io"
 	"math/big"
+	"os"
 	"os/exec"
 	"strings"
 	"time"
 )
+
+var slowLog = os.Getenv("GOSYM_SLOW") != ""
 
 type Verdict int
 
@@ -39,6 +42,10 @@ type Solver struct {
 	timeoutMs              int
 	logw                   io.Writer
 	buf                    strings.Builder
+	decls                  []string  // every global declaration/definition, in order
+	stack                  [][]*Term // assertions per push level
+	quickMs                int       // incremental attempt budget before escalating
+	nEscalated             int
 }
 
 func NewSolver(kind string, tb *TermBank, timeoutMs int) (*Solver, error) {
@@ -67,13 +74,17 @@ func NewSolver(kind string, tb *TermBank, timeoutMs int) (*Solver, error) {
 		return nil, err
 	}
 	s := &Solver{kind: kind, cmd: cmd, in: in, out: bufio.NewReaderSize(outp, 1<<20), tb: tb,
-		defined: map[int]bool{}, ufDecl: map[string]bool{}, timeoutMs: timeoutMs}
+		defined: map[int]bool{}, ufDecl: map[string]bool{}, timeoutMs: timeoutMs, stack: [][]*Term{nil}}
+	s.quickMs = 4000
+	if timeoutMs < s.quickMs {
+		s.quickMs = timeoutMs
+	}
 	if kind == "cvc5" {
 		s.send("(set-logic ALL)")
 	} else {
 		s.send("(set-option :global-declarations true)")
 		s.send("(set-option :produce-models true)")
-		s.send(fmt.Sprintf("(set-option :timeout %d)", timeoutMs))
+		s.send(fmt.Sprintf("(set-option :timeout %d)", s.quickMs))
 	}
 	s.sync()
 	return s, nil
@@ -163,25 +174,31 @@ func (s *Solver) define(t *Term) {
 		switch x.op {
 		case OpConst, OpConstArr:
 		case OpVar:
-			s.send(fmt.Sprintf("(declare-fun %s () %s)", smtName(x.name), sortStr(x.w)))
+			s.decl(fmt.Sprintf("(declare-fun %s () %s)", smtName(x.name), sortStr(x.w)))
 		default:
 			if x.op == OpUF && !s.ufDecl[x.name] {
 				s.ufDecl[x.name] = true
-				s.send(fmt.Sprintf("(declare-fun %s %s)", smtName(x.name), s.tb.ufs[x.name]))
+				s.decl(fmt.Sprintf("(declare-fun %s %s)", smtName(x.name), s.tb.ufs[x.name]))
 			}
 			if !(x.op == OpUF && len(x.args) == 0) {
-				s.send(fmt.Sprintf("(define-fun t%d () %s %s)", x.id, sortStr(x.w), x.body()))
+				s.decl(fmt.Sprintf("(define-fun t%d () %s %s)", x.id, sortStr(x.w), x.body()))
 			} else {
 				// nullary UF: behaves as a variable; alias
-				s.send(fmt.Sprintf("(define-fun t%d () %s %s)", x.id, sortStr(x.w), smtName(x.name)))
+				s.decl(fmt.Sprintf("(define-fun t%d () %s %s)", x.id, sortStr(x.w), smtName(x.name)))
 			}
 		}
 	}
 }
 
+func (s *Solver) decl(line string) {
+	s.decls = append(s.decls, line)
+	s.send(line)
+}
+
 func (s *Solver) Push() {
 	s.send("(push 1)")
 	s.level++
+	s.stack = append(s.stack, nil)
 }
 
 func (s *Solver) Pop(n int) {
@@ -190,11 +207,13 @@ func (s *Solver) Pop(n int) {
 	}
 	s.send(fmt.Sprintf("(pop %d)", n))
 	s.level -= n
+	s.stack = s.stack[:len(s.stack)-n]
 }
 
 func (s *Solver) Assert(t *Term) {
 	s.define(t)
 	s.send(fmt.Sprintf("(assert %s)", t.ref()))
+	s.stack[len(s.stack)-1] = append(s.stack[len(s.stack)-1], t)
 }
 
 // Check decides the current assertion stack plus extra (not retained).
@@ -206,15 +225,24 @@ func (s *Solver) Check(extra ...*Term) Verdict {
 // CheckModel is Check and, on sat, fetches the values of want.
 func (s *Solver) CheckModel(want []*Term, extra ...*Term) (Verdict, map[*Term]*big.Int) {
 	t0 := time.Now()
-	defer func() { s.solveTime += time.Since(t0) }()
-	if len(extra) > 0 {
-		s.send("(push 1)")
-		for _, e := range extra {
-			s.Assert(e)
+	defer func() {
+		d := time.Since(t0)
+		s.solveTime += d
+		if slowLog && d > 2*time.Second {
+			fmt.Fprintf(os.Stderr, "SLOW query %v (extra=%d want=%d level=%d)\n", d, len(extra), len(want), s.level)
 		}
+	}()
+	for _, x := range extra {
+		s.define(x)
 	}
 	for _, w := range want {
 		s.define(w)
+	}
+	if len(extra) > 0 {
+		s.send("(push 1)")
+		for _, x := range extra {
+			s.send(fmt.Sprintf("(assert %s)", x.ref()))
+		}
 	}
 	nerr := len(s.errors)
 	s.send("(check-sat)")
@@ -239,6 +267,9 @@ func (s *Solver) CheckModel(want []*Term, extra ...*Term) (Verdict, map[*Term]*b
 	}
 	if len(extra) > 0 {
 		s.send("(pop 1)")
+	}
+	if verdict == Unknown && len(s.errors) == nerr {
+		verdict, model = s.escalate(want, extra)
 	}
 	switch verdict {
 	case Sat:
@@ -358,4 +389,82 @@ func parseLit(v string) *big.Int {
 		return b
 	}
 	return nil
+}
+
+// escalate re-decides a query the incremental solver gave up on, in fresh
+// non-incremental solver processes (which use the bit-blasting tactics).
+func (s *Solver) escalate(want []*Term, extra []*Term) (Verdict, map[*Term]*big.Int) {
+	s.nEscalated++
+	var sb strings.Builder
+	for _, d := range s.decls {
+		sb.WriteString(d)
+		sb.WriteByte('\n')
+	}
+	for _, lvl := range s.stack {
+		for _, t := range lvl {
+			sb.WriteString("(assert " + t.ref() + ")\n")
+		}
+	}
+	for _, t := range extra {
+		sb.WriteString("(assert " + t.ref() + ")\n")
+	}
+	sb.WriteString("(check-sat)\n")
+	if len(want) > 0 {
+		sb.WriteString("(get-value (")
+		for _, w := range want {
+			sb.WriteString(w.ref() + " ")
+		}
+		sb.WriteString("))\n")
+	}
+	body := sb.String()
+	type attempt struct {
+		name string
+		args []string
+		pre  string
+	}
+	secs := s.timeoutMs / 1000
+	if secs < 1 {
+		secs = 1
+	}
+	attempts := []attempt{
+		{"z3", []string{"-in", fmt.Sprintf("-T:%d", secs)}, "(set-option :produce-models true)\n"},
+		{"z3-new", []string{"-in", fmt.Sprintf("-T:%d", secs)}, "(set-option :produce-models true)\n"},
+		{"cvc5", []string{"--lang", "smt2", "--produce-models", fmt.Sprintf("--tlimit=%d", s.timeoutMs)}, "(set-logic ALL)\n"},
+	}
+	for _, a := range attempts {
+		cmd := exec.Command(a.name, a.args...)
+		cmd.Stdin = strings.NewReader(a.pre + body)
+		out, _ := cmd.CombinedOutput()
+		txt := string(out)
+		if strings.Contains(txt, "(error") && !strings.Contains(txt, "model is not available") {
+			continue
+		}
+		lines := strings.Split(txt, "\n")
+		first := ""
+		for _, l := range lines {
+			if t := strings.TrimSpace(l); t != "" {
+				first = t
+				break
+			}
+		}
+		switch first {
+		case "unsat":
+			return Unsat, nil
+		case "sat":
+			var model map[*Term]*big.Int
+			if len(want) > 0 {
+				rest := strings.Join(lines[1:], " ")
+				vals := parseValues(rest)
+				if len(vals) != len(want) {
+					continue
+				}
+				model = map[*Term]*big.Int{}
+				for k, w := range want {
+					model[w] = vals[k]
+				}
+			}
+			return Sat, model
+		}
+	}
+	return Unknown, nil
 }
